@@ -304,7 +304,11 @@ def must_reject(tier, seed):
     for key, val in [("not_an_option", 1), ("nx", -1), ("q_coefficients", [-1.0])]:
         oo = {"nx": 3, "ny": 6, key: val}
         out.append({"family": "C", "entry": "circular-cli", "eq": {}, "options": oo, "must_raise": "invalid-input/circular/%s" % key, "why": "invalid circular option", "stratum": "must-reject"})
-    for key, val in [("nx_core", 2), ("orthogonal", False), ("psinorm_sol", 1.15), ("finecontour_Nfine", 80), ("y_boundary_guards", 1), ("refine_atol", 1e-7)]:
+    # options consumed by both the equilibrium and the mesh (the run-time consistency check of
+    # MeshRegion); tokamak-only options such as nx_core or psinorm_sol are not used by the mesh at all,
+    # so a changed value in the mesh's dictionary is ignored by design (the scripts hand one dictionary
+    # to both) - not an inconsistency the property speaks of
+    for key, val in [("orthogonal", False), ("finecontour_Nfine", 80), ("y_boundary_guards", 1), ("refine_atol", 1e-7), ("refine_width", 0.1)]:
         out.append({"family": "G", "entry": "api-inconsistent", "eq": eq, "options": dict(small), "mesh_option_change": {key: val},
                     "must_raise": "equilibrium-mesh-mismatch/%s" % key, "why": "mesh built with %s changed since the equilibrium was created" % key, "stratum": "must-reject"})
     return out if tier != "quick" else out[:8] + out[-3:]
